@@ -3,6 +3,7 @@ package sim
 import (
 	"encoding/json"
 	"fmt"
+	"os"
 	"strings"
 
 	"verif/harness/simapi"
@@ -36,7 +37,7 @@ func Summarize(w *simapi.Write) string {
 				bj, aj = []byte(condSummary(b)), []byte(condSummary(a))
 			}
 			s := fmt.Sprintf("%s: %s -> %s", f, bj, aj)
-			if len(s) > 300 {
+			if len(s) > 300 && os.Getenv("VERIF_FULL_WRITES") == "" {
 				s = s[:300] + "…"
 			}
 			out = append(out, s)
